@@ -11,7 +11,8 @@ import StraxModel.Model.Basic
   strax/storage/common.py (DataKey, _matches, _filter_lineage), strax/storage/files.py (_find).
 
   Simplifications (validated by the correspondence check, listed in notes/C02.md): one run id, one
-  DataDirectory, every plugin provides exactly one data type and has save_when = ALWAYS.
+  DataDirectory, save_when = ALWAYS for every output, `set_config` in mode `update`, `new_context()`
+  without arguments, no per-run defaults.  Plugins may provide several data types.
   Import-free (core Lean only).
 -/
 namespace Strax.Lineage
@@ -21,20 +22,29 @@ open Strax
 
 /-- Python option values: int, str, tuple (`seq true`) / list (`seq false`), dict with str keys
 (association list in insertion order), set of str (elements in *iteration order*, which depends
-on `PYTHONHASHSEED`). -/
+on `PYTHONHASHSEED`), bool, None, and floats whose `repr` is a plain decimal (sign, integer part,
+at least one fractional digit — `1e-4 ≤ |x| < 1e16` or `x = 0`; exponent forms, inf and nan are
+outside the model). -/
 inductive Val where
   | int (i : Int)
   | str (s : String)
   | seq (tup : Bool) (l : List Val)
   | dict (d : List (String × Val))
   | sset (l : List String)
+  | bool (b : Bool)
+  | none
+  | float (neg : Bool) (ip : Nat) (fd : Fin 10) (fds : List (Fin 10))
 deriving Repr, Inhabited
 
-/-- What `hashablize` leaves for `json.dumps`: ints, strings and (nested) lists. -/
+/-- What `hashablize` leaves for `json.dumps`: ints, strings, (nested) lists, and the JSON
+scalars `true` / `false` / `null` / floats. -/
 inductive Canon where
   | int (i : Int)
   | str (s : String)
   | list (l : List Canon)
+  | bool (b : Bool)
+  | null
+  | float (neg : Bool) (ip : Nat) (fd : Fin 10) (fds : List (Fin 10))
 deriving Repr, Inhabited
 
 /-! ### decidable equality (the deriving handler does not cover nested inductives) -/
@@ -46,6 +56,9 @@ def Val.beq : Val → Val → Bool
   | .seq t l, .seq t' l' => t == t' && Val.beqList l l'
   | .dict d, .dict d' => Val.beqPairs d d'
   | .sset l, .sset l' => l == l'
+  | .bool a, .bool b => a == b
+  | .none, .none => true
+  | .float n i d ds, .float n' i' d' ds' => n == n' && i == i' && d == d' && ds == ds'
   | _, _ => false
 def Val.beqList : List Val → List Val → Bool
   | [], [] => true
@@ -66,11 +79,17 @@ theorem Val.beq_eq : ∀ a b : Val, Val.beq a b = true → a = b
   | .dict d, .dict d', h => by
       simp [Val.beq] at h; have := Val.beqPairs_eq d d' h; simp [this]
   | .sset l, .sset l', h => by simp [Val.beq] at h; simp [h]
-  | .int _, .str _, h | .int _, .seq _ _, h | .int _, .dict _, h | .int _, .sset _, h
-  | .str _, .int _, h | .str _, .seq _ _, h | .str _, .dict _, h | .str _, .sset _, h
-  | .seq _ _, .int _, h | .seq _ _, .str _, h | .seq _ _, .dict _, h | .seq _ _, .sset _, h
-  | .dict _, .int _, h | .dict _, .str _, h | .dict _, .seq _ _, h | .dict _, .sset _, h
-  | .sset _, .int _, h | .sset _, .str _, h | .sset _, .seq _ _, h | .sset _, .dict _, h => by
+  | .bool a, .bool b, h => by simp [Val.beq] at h; simp [h]
+  | .none, .none, _ => rfl
+  | .float n i d ds, .float n' i' d' ds', h => by simp [Val.beq] at h; simp [h]
+  | .int _, .str _, h | .int _, .seq _ _, h | .int _, .dict _, h | .int _, .sset _, h | .int _, .bool _, h | .int _, .none, h | .int _, .float _ _ _ _, h
+  | .str _, .int _, h | .str _, .seq _ _, h | .str _, .dict _, h | .str _, .sset _, h | .str _, .bool _, h | .str _, .none, h | .str _, .float _ _ _ _, h
+  | .seq _ _, .int _, h | .seq _ _, .str _, h | .seq _ _, .dict _, h | .seq _ _, .sset _, h | .seq _ _, .bool _, h | .seq _ _, .none, h | .seq _ _, .float _ _ _ _, h
+  | .dict _, .int _, h | .dict _, .str _, h | .dict _, .seq _ _, h | .dict _, .sset _, h | .dict _, .bool _, h | .dict _, .none, h | .dict _, .float _ _ _ _, h
+  | .sset _, .int _, h | .sset _, .str _, h | .sset _, .seq _ _, h | .sset _, .dict _, h | .sset _, .bool _, h | .sset _, .none, h | .sset _, .float _ _ _ _, h
+  | .bool _, .int _, h | .bool _, .str _, h | .bool _, .seq _ _, h | .bool _, .dict _, h | .bool _, .sset _, h | .bool _, .none, h | .bool _, .float _ _ _ _, h
+  | .none, .int _, h | .none, .str _, h | .none, .seq _ _, h | .none, .dict _, h | .none, .sset _, h | .none, .bool _, h | .none, .float _ _ _ _, h
+  | .float _ _ _ _, .int _, h | .float _ _ _ _, .str _, h | .float _ _ _ _, .seq _ _, h | .float _ _ _ _, .dict _, h | .float _ _ _ _, .sset _, h | .float _ _ _ _, .bool _, h | .float _ _ _ _, .none, h => by
       simp [Val.beq] at h
 theorem Val.beqList_eq : ∀ a b : List Val, Val.beqList a b = true → a = b
   | [], [], _ => rfl
@@ -91,6 +110,9 @@ theorem Val.beq_refl : ∀ a : Val, Val.beq a a = true
   | .seq t l => by simp [Val.beq, Val.beqList_refl l]
   | .dict d => by simp [Val.beq, Val.beqPairs_refl d]
   | .sset l => by simp [Val.beq]
+  | .bool b => by simp [Val.beq]
+  | .none => by simp [Val.beq]
+  | .float n i d ds => by simp [Val.beq]
 theorem Val.beqList_refl : ∀ a : List Val, Val.beqList a a = true
   | [] => rfl
   | a :: as => by simp [Val.beqList, Val.beq_refl a, Val.beqList_refl as]
@@ -108,6 +130,9 @@ def Canon.beq : Canon → Canon → Bool
   | .int a, .int b => a == b
   | .str a, .str b => a == b
   | .list l, .list l' => Canon.beqList l l'
+  | .bool a, .bool b => a == b
+  | .null, .null => true
+  | .float n i d ds, .float n' i' d' ds' => n == n' && i == i' && d == d' && ds == ds'
   | _, _ => false
 def Canon.beqList : List Canon → List Canon → Bool
   | [], [] => true
@@ -121,8 +146,16 @@ theorem Canon.beq_eq : ∀ a b : Canon, Canon.beq a b = true → a = b
   | .str a, .str b, h => by simp [Canon.beq] at h; simp [h]
   | .list l, .list l', h => by
       simp [Canon.beq] at h; have := Canon.beqList_eq l l' h; simp [this]
-  | .int _, .str _, h | .int _, .list _, h | .str _, .int _, h | .str _, .list _, h
-  | .list _, .int _, h | .list _, .str _, h => by simp [Canon.beq] at h
+  | .bool a, .bool b, h => by simp [Canon.beq] at h; simp [h]
+  | .null, .null, _ => rfl
+  | .float n i d ds, .float n' i' d' ds', h => by simp [Canon.beq] at h; simp [h]
+  | .int _, .str _, h | .int _, .list _, h | .int _, .bool _, h | .int _, .null, h | .int _, .float _ _ _ _, h
+  | .str _, .int _, h | .str _, .list _, h | .str _, .bool _, h | .str _, .null, h | .str _, .float _ _ _ _, h
+  | .list _, .int _, h | .list _, .str _, h | .list _, .bool _, h | .list _, .null, h | .list _, .float _ _ _ _, h
+  | .bool _, .int _, h | .bool _, .str _, h | .bool _, .list _, h | .bool _, .null, h | .bool _, .float _ _ _ _, h
+  | .null, .int _, h | .null, .str _, h | .null, .list _, h | .null, .bool _, h | .null, .float _ _ _ _, h
+  | .float _ _ _ _, .int _, h | .float _ _ _ _, .str _, h | .float _ _ _ _, .list _, h | .float _ _ _ _, .bool _, h | .float _ _ _ _, .null, h => by
+      simp [Canon.beq] at h
 theorem Canon.beqList_eq : ∀ a b : List Canon, Canon.beqList a b = true → a = b
   | [], [], _ => rfl
   | a :: as, b :: bs, h => by
@@ -135,6 +168,9 @@ theorem Canon.beq_refl : ∀ a : Canon, Canon.beq a a = true
   | .int a => by simp [Canon.beq]
   | .str a => by simp [Canon.beq]
   | .list l => by simp [Canon.beq, Canon.beqList_refl l]
+  | .bool b => by simp [Canon.beq]
+  | .null => by simp [Canon.beq]
+  | .float n i d ds => by simp [Canon.beq]
 theorem Canon.beqList_refl : ∀ a : List Canon, Canon.beqList a a = true
   | [] => rfl
   | a :: as => by simp [Canon.beqList, Canon.beq_refl a, Canon.beqList_refl as]
@@ -191,6 +227,9 @@ def canonWith (sortSets : Bool) : Val → Canon
   | .seq _ l => .list (canonListWith sortSets l)
   | .dict d => .list ((sortKV (canonPairsWith sortSets d)).map pairCanon)
   | .sset l => .list ((if sortSets then sortS l else l).map Canon.str)
+  | .bool b => .bool b
+  | .none => .null
+  | .float n i d ds => .float n i d ds
 def canonListWith (sortSets : Bool) : List Val → List Canon
   | [] => []
   | v :: vs => canonWith sortSets v :: canonListWith sortSets vs
@@ -212,12 +251,18 @@ def escapeChar (c : Char) : String :=
 
 def escape (s : String) : String := String.join (s.toList.map escapeChar)
 
+/-- the digits after the decimal point -/
+def digitsString (ds : List (Fin 10)) : String := String.ofList (ds.map fun d => Nat.digitChar d.val)
+
 mutual
 /-- exactly `json.dumps(hashablize(x), cls=NumpyJSONEncoder)` — the text fed to SHA-1 -/
 def canonString : Canon → String
   | .int i => toString i
   | .str s => "\"" ++ escape s ++ "\""
   | .list l => "[" ++ ", ".intercalate (canonStrings l) ++ "]"
+  | .bool b => if b then "true" else "false"
+  | .null => "null"
+  | .float n i d ds => (if n then "-" else "") ++ toString i ++ "." ++ digitsString (d :: ds)
 def canonStrings : List Canon → List String
   | [] => []
   | c :: cs => canonString c :: canonStrings cs
@@ -233,6 +278,9 @@ def norm : Val → Val
   | .seq t l => .seq t (normList l)
   | .dict d => .dict (sortKV (normPairs d))
   | .sset l => .sset (sortS l)
+  | .bool b => .bool b
+  | .none => .none
+  | .float n i d ds => .float n i d ds
 def normList : List Val → List Val
   | [] => []
   | v :: vs => norm v :: normList vs
@@ -251,6 +299,9 @@ def jsonRT : Val → Val
   | .seq _ l => .seq false (jsonRTList l)
   | .dict d => .dict (jsonRTPairs d)
   | .sset l => .sset l   -- not JSON serialisable: a set-valued option cannot be saved at all
+  | .bool b => .bool b
+  | .none => .none
+  | .float n i d ds => .float n i d ds
 def jsonRTList : List Val → List Val
   | [] => []
   | v :: vs => jsonRT v :: jsonRTList vs
@@ -269,9 +320,11 @@ structure Opt where
   parent : Option String
 deriving Repr, DecidableEq, Inhabited
 
-/-- A plugin class as far as lineage and the context hash can see it.  `options` is
-`takes_config` in order (for a child plugin: the parent's options first).  `bases` are
-`(__name__, version())` of `__bases__`, used only when `child` (`child_plugin = True`). -/
+/-- A plugin class as far as lineage and the context hash can see it.  The class provides
+`alsoProvides ++ [provides]`: `provides` is `cls.provides[-1]`, the key of its lineage entry, and
+`alsoProvides` are the other outputs of a multi-output plugin.  `options` is `takes_config` in
+order (for a child plugin: the parent's options first).  `bases` are `(__name__, version())` of
+`__bases__`, used only when `child` (`child_plugin = True`). -/
 structure PluginClass where
   name : String
   version : String
@@ -282,19 +335,34 @@ structure PluginClass where
   bases : List (String × String)
   compressor : String
   inputTimeout : Int
+  alsoProvides : List String
 deriving Repr, DecidableEq, Inhabited
+
+/-- `cls.provides` as Python has it -/
+def PluginClass.outputs (cls : PluginClass) : List String := cls.alsoProvides ++ [cls.provides]
+
+/-- `d in cls.provides` -/
+def PluginClass.makes (cls : PluginClass) (d : String) : Bool := cls.provides == d || cls.alsoProvides.contains d
+
+/-- the two classes have an output in common -/
+def PluginClass.overlaps (a b : PluginClass) : Bool := a.outputs.any b.makes
 
 abbrev Config := List (String × Val)
 
-/-- `_plugin_class_registry` (every class provides one data type, which is its key) -/
+/-- `_plugin_class_registry` as the list of registered classes; `register` keeps their outputs
+pairwise disjoint, so "data type ↦ class" is `lookup` -/
 abbrev Registry := List PluginClass
 
-def Registry.lookup (r : Registry) (d : String) : Option PluginClass := r.find? (·.provides == d)
+def Registry.lookup (r : Registry) (d : String) : Option PluginClass := r.find? (·.makes d)
 
-/-- `registry[cls.provides] = cls` (in place if the key exists, else appended) -/
-def Registry.set : Registry → PluginClass → Registry
-  | [], cls => [cls]
-  | c :: rest, cls => if c.provides == cls.provides then cls :: rest else c :: Registry.set rest cls
+/-- `register` replaces a class iff it takes over an output of a *different* registered class -/
+def Registry.replaces (r : Registry) (cls : PluginClass) : Bool := r.any fun c => c != cls && c.overlaps cls
+
+/-- the registry after `register(cls)`: every other class that shares an output with `cls` is
+deregistered for all its outputs ("to preserve a one-to-one mapping"), `cls` provides all of its own -/
+def Registry.set (r : Registry) (cls : PluginClass) : Registry :=
+  let kept := r.filter fun c => c == cls || !c.overlaps cls
+  if kept.contains cls then kept else kept ++ [cls]
 
 /-! ## Effective plugin configuration (`Context._set_plugin_config`) -/
 
@@ -413,13 +481,62 @@ def filterLineage (l : Lineage) (ff ffo : List String) : Lineage :=
 def storedLineage (l : Lineage) : Lineage :=
   l.map fun ke => (ke.1, { ke.2 with config := jsonRTPairs ke.2.config })
 
+/-! ### Python `==` on what `hashablize` returns -/
+
+/-- digits after the point without trailing zeros -/
+def stripZeros (ds : List (Fin 10)) : List (Fin 10) := (ds.reverse.dropWhile (· == 0)).reverse
+
+/-- the numeric value of a JSON scalar in a normal form in which Python's `==` is equality:
+`True == 1 == 1.0`, `False == 0 == 0.0 == -0.0` -/
+def Canon.numKey : Canon → Option (Bool × Nat × List (Fin 10))
+  | .int i => some (decide (i < 0), i.natAbs, [])
+  | .bool b => some (false, if b then 1 else 0, [])
+  | .float n ip d ds =>
+    let fr := stripZeros (d :: ds)
+    some (n && !(ip == 0 && fr.isEmpty), ip, fr)
+  | _ => none
+
+mutual
+/-- Python `==` of two hashablized values: tuples element-wise, strings and `None` as such, and
+int / bool / float *numerically across types* -/
+def Canon.pyEq : Canon → Canon → Bool
+  | .str a, .str b => a == b
+  | .list l, .list l' => Canon.pyEqList l l'
+  | .null, .null => true
+  | a, b =>
+    match a.numKey, b.numKey with
+    | some x, some y => x == y
+    | _, _ => false
+def Canon.pyEqList : List Canon → List Canon → Bool
+  | [], [] => true
+  | a :: as, b :: bs => Canon.pyEq a b && Canon.pyEqList as bs
+  | _, _ => false
+end
+
+/-- how fuzzy `_matches` compares the two filtered lineages -/
+inductive MatchRule where
+  | pyEqVals    -- before the first fix: Python `==` of the dicts themselves (JSON lists vs tuples)
+  | pyEqCanon   -- after the first fix: Python `==` of the `hashablize`d dicts (`1 == True == 1.0`)
+  | textEq      -- as the code is now: equal `deterministic_hash`, i.e. equal JSON texts — what keys are made of
+deriving Repr, DecidableEq
+
 /-- `_matches(metadata["lineage"], key.lineage, fuzzy_for, fuzzy_for_options)` in fuzzy mode
-(`stored` is what was saved, before the JSON round trip): equality of the `hashablize`d filtered
-dicts; before the fix (`canonMatch = false`) Python `==` of the filtered dicts themselves. -/
-def fuzzyMatches (canonMatch : Bool) (stored want : Lineage) (ff ffo : List String) : Bool :=
-  if canonMatch then
+(`stored` is what was saved, before the JSON round trip). -/
+def fuzzyMatches (m : MatchRule) (stored want : Lineage) (ff ffo : List String) : Bool :=
+  match m with
+  | .textEq =>
     decide (lineageCanon (filterLineage (storedLineage stored) ff ffo) = lineageCanon (filterLineage want ff ffo))
-  else pyEq (filterLineage (storedLineage stored) ff ffo).toVal (filterLineage want ff ffo).toVal
+  | .pyEqCanon =>
+    Canon.pyEq (lineageCanon (filterLineage (storedLineage stored) ff ffo)) (lineageCanon (filterLineage want ff ffo))
+  | .pyEqVals => pyEq (filterLineage (storedLineage stored) ff ffo).toVal (filterLineage want ff ffo).toVal
+
+/-! ## Auto-inferred versions (`Plugin._auto_version`, used when `__version__ = None`) -/
+
+/-- `"auto_" + deterministic_hash({attr: deterministic_hash(inspect.getsource(attr)) for attr in dir(cls)})`;
+`attrs` maps every attribute of the class to its source text (for non-code attributes: the text
+`str(obj)` or the hashed value stands in — any text that determines the attribute) -/
+def autoVersion (H : String → String) (attrs : List (String × String)) : String :=
+  "auto_" ++ H (canonString (canon (.dict (attrs.map fun a => (a.1, Val.str (H (canonString (.str a.2))))))))
 
 /-! ## Context state machine -/
 
@@ -455,25 +572,28 @@ deriving Repr
 * `resetOnReplace`: `register` resets `_fixed_plugin_cache` when it replaces a class (D4);
 * `pairHash`: `_context_hash` hashes the pair `(config, {type: (version, compressor, timeout)})`
   instead of one merged dict in which an option named like a data type is overwritten;
-* `canonMatch`: fuzzy `_matches` compares `hashablize`d lineages (tuples vs JSON lists). -/
+* `matchRule`: how fuzzy `_matches` compares (see `MatchRule`). -/
 structure Rules where
   resetOnReplace : Bool
   pairHash : Bool
-  canonMatch : Bool
+  matchRule : MatchRule
 deriving Repr, DecidableEq
 
-def Rules.fixed : Rules := ⟨true, true, true⟩
+/-- the code as it is now -/
+def Rules.fixed : Rules := ⟨true, true, .textEq⟩
 /-- the cache rule before the D4 fix (everything else as now) -/
-def Rules.old : Rules := ⟨false, true, true⟩
+def Rules.old : Rules := ⟨false, true, .textEq⟩
 /-- the context hash before its fix (everything else as now) -/
-def Rules.mergedHash : Rules := ⟨true, false, true⟩
-/-- fuzzy matching before its fix (everything else as now) -/
-def Rules.pyEqMatch : Rules := ⟨true, true, false⟩
+def Rules.mergedHash : Rules := ⟨true, false, .textEq⟩
+/-- fuzzy matching before its first fix (everything else as now) -/
+def Rules.pyEqMatch : Rules := ⟨true, true, .pyEqVals⟩
+/-- fuzzy matching between its two fixes: Python `==` of the `hashablize`d lineages (`1 == True`) -/
+def Rules.pyEqCanonMatch : Rules := ⟨true, true, .pyEqCanon⟩
 
 /-- `{data_type: (version, compressor, input_timeout)}` of every registered non-temporary type -/
 def registryHashInput (r : Registry) : List (String × Val) :=
-  (r.filter fun cls => !cls.provides.startsWith "_temp_").map fun cls =>
-    (cls.provides, .seq true [.str cls.version, .str cls.compressor, .int cls.inputTimeout])
+  r.flatMap fun cls => (cls.outputs.filter fun d => !d.startsWith "_temp_").map fun d =>
+    (d, .seq true [.str cls.version, .str cls.compressor, .int cls.inputTimeout])
 
 /-- what `_context_hash` feeds to `deterministic_hash` -/
 def contextHashInput (rules : Rules) (r : Registry) (c : Config) : Val :=
@@ -497,6 +617,11 @@ def toCache (cache : Cache K) (h : K) (d : String) (inst : PluginInst) : Cache K
   match cache with
   | none => some (h, [(d, inst)])
   | some (h', m) => if h' = h then some (h, dictSet m d inst) else some (h, [(d, inst)])
+
+/-- `_plugins_to_cache({d: inst for d in inst.provides})` -/
+def toCacheAll (cache : Cache K) (h : K) (inst : PluginInst) : List String → Cache K
+  | [] => cache
+  | d :: ds => toCacheAll (toCache cache h d inst) h inst ds
 
 /-- resolve the dependencies in order, threading the cache; the first exception wins (the cache
 keeps what was added before it) -/
@@ -531,7 +656,7 @@ def getPlugin (r : Registry) (c : Config) (h : K) :
           | (.error e, cache') => (.error e, cache')
           | (.ok ls, cache') =>
             let inst : PluginInst := ⟨cls, mergeLineage (ownEntry cls pc) ls⟩
-            (.ok inst, toCache cache' h d inst)
+            (.ok inst, toCacheAll cache' h inst cls.outputs)
 
 /-- `DataDirectory._find`: exact directory name first, then (fuzzy only) the first directory of
 that data type whose metadata lineage matches.  (The real scan order is `os.listdir`'s.) -/
@@ -541,7 +666,7 @@ def findItem (rules : Rules) (H : String → K) (storage : List (Item K)) (d : S
   | some it => some it
   | none =>
     if ff.isEmpty && ffo.isEmpty then none
-    else storage.find? fun it => it.dataType == d && fuzzyMatches rules.canonMatch it.lineage want ff ffo
+    else storage.find? fun it => it.dataType == d && fuzzyMatches rules.matchRule it.lineage want ff ffo
 
 /-- `Context._find_options['fuzzy_for']`: the data types mapped through the registry -/
 def findOpts (r : Registry) : List String → Except Err (List String)
@@ -571,13 +696,19 @@ def components (rules : Rules) (H : String → K) (m : CacheMap) (cfg : Config) 
         match mapE (components rules H m cfg storage ff ffo n) inst.cls.dependsOn with
         | .error e => .error e
         | .ok deps =>
+          -- `get_components` re-runs `_set_plugin_config(p, tolerant=False)` on every plugin it is
+          -- going to run: the rows are computed from the *current* config and the cached *class*,
+          -- the `p.config` of the cached instance never matters
           if missingOption inst.cls cfg then .error .other else
           match pluginConfig inst.cls cfg with
           | .error e => .error e
           | .ok pc =>
             let prov := mergeLineage (ownEntry inst.cls pc) (deps.map (·.1))
+            -- every output of the plugin is computed and saved (those already there are skipped by `addItems`)
             let saved : List (Item K) :=
-              if ff.isEmpty && ffo.isEmpty then [⟨d, keyOf H inst.lineage, inst.lineage, prov⟩] else []
+              if ff.isEmpty && ffo.isEmpty then
+                inst.cls.outputs.map fun o => ⟨o, keyOf H inst.lineage, inst.lineage, prov⟩
+              else []
             .ok (prov, (deps.map (·.2)).flatten ++ saved)
 
 /-- a saver never writes a directory that already exists -/
@@ -650,9 +781,7 @@ def stepCtx (rules : Rules) (H : String → K) (ctx : Ctx K) (storage : List (It
     CtxOp → Out × Ctx K × List (Item K)
   | .setConfig kvs => (.unit, { ctx with config := dictUpdate ctx.config kvs }, storage)
   | .register cls =>
-    let replaced := match ctx.registry.lookup cls.provides with
-      | some old => decide (old ≠ cls)
-      | none => false
+    let replaced := ctx.registry.replaces cls
     let r' := ctx.registry.set cls
     let cache' := if replaced && rules.resetOnReplace then none else ctx.cache
     -- the registry is already updated when the default check raises
